@@ -1679,12 +1679,31 @@ def rule_L1(repo: Repo) -> RuleResult:
         raise AnalysisError("L1: single-level arm of argsort_index_numeric_only not found")
     inner = [i for i in single[0].body if isinstance(i, ast.If)]
     ok1 = False
+    from .model import eval_bool
+
+    def sortedness_leaf(cat: bool, mono: bool):
+        def leaf(e: ast.AST):
+            t = norm(e)
+            if "CategoricalDtype" in t:
+                return cat
+            if "is_monotonic_increasing" in t:
+                return mono
+            return None
+        return leaf
+
+    def arm_of(ifn: ast.If, block: List[ast.stmt], cat: bool, mono: bool) -> Optional[List[ast.stmt]]:
+        v = eval_bool(ifn.test, sortedness_leaf(cat, mono))
+        if v is None:
+            return None
+        if v:
+            return ifn.body
+        return ifn.orelse or block[block.index(ifn) + 1:]          # else-arm or fall-through
     if inner:
-        t = norm(inner[0].test)
-        ident = any(isinstance(r, ast.Return) and norm(r.value) == "slice(None)" for r in inner[0].body)
-        after = inner[0].orelse or single[0].body[single[0].body.index(inner[0]) + 1:]      # else-arm or fall-through
-        srt = any(isinstance(r, ast.Return) and norm(r.value) in (f"{ip}.argsort()", f"np.argsort({ip})") for r in after)
-        ok1 = "CategoricalDtype" in t and "is_monotonic_increasing" in t and " or " in t and ident and srt
+        arms = {(c, m): arm_of(inner[0], single[0].body, c, m) for c in (True, False) for m in (True, False)}
+        def returns(arm, texts) -> bool:
+            return arm is not None and any(isinstance(r, ast.Return) and norm(r.value) in texts for r in arm)
+        ok1 = all(returns(arms[k], ("slice(None)",)) for k in ((True, True), (True, False), (False, True))) \
+            and returns(arms[(False, False)], (f"{ip}.argsort()", f"np.argsort({ip})"))
     (res.ok if ok1 else res.bad)(f, single[0], "single level: categorical or increasing -> slice(None), else index.argsort()",
                                  "" if ok1 else "a single label level must be left alone when it is categorical or already increasing and "
                                  "sorted by index.argsort() otherwise")
@@ -1706,7 +1725,23 @@ def rule_L1(repo: Repo) -> RuleResult:
         if isinstance(a, ast.Subscript) and norm(a.slice) == codes and norm(a.value) in (
                 f"np.argsort({lvl}.argsort())", f"{lvl}.argsort().argsort()", f"np.argsort(np.argsort({lvl}))"):
             rank_ok = True
-    cond_ok = any(isinstance(i, ast.If) and "CategoricalDtype" in norm(i.test) and "is_monotonic_increasing" in norm(i.test) for i in l.body)
+    cond_ok = False
+    for i in l.body:
+        if isinstance(i, ast.If) and "CategoricalDtype" in norm(i.test) and "is_monotonic_increasing" in norm(i.test):
+            arms2 = {(c, m): arm_of(i, l.body, c, m) for c in (True, False) for m in (True, False)}
+
+            def appends(arm, rank: bool) -> bool:
+                if arm is None:
+                    return False
+                for c_ in [x for st_ in arm for x in ast.walk(st_)]:
+                    if isinstance(c_, ast.Call) and isinstance(c_.func, ast.Attribute) and c_.func.attr == "append" and c_.args:
+                        a_ = c_.args[0]
+                        is_rank = isinstance(a_, ast.Subscript) and norm(a_.slice) == codes
+                        is_asis = isinstance(a_, ast.Name) and a_.id == codes
+                        if (rank and is_rank) or (not rank and is_asis):
+                            return True
+                return False
+            cond_ok = all(appends(arms2[k], False) for k in ((True, True), (True, False), (False, True))) and appends(arms2[(False, False)], True)
     ok2 = it_ok and rank_ok and asis_ok and cond_ok
     (res.ok if ok2 else res.bad)(f, l, "levels: codes as they are if categorical/increasing, else np.argsort(level.argsort())[codes]",
                                  "" if ok2 else "a level whose labels are not in increasing order must contribute the RANK of each label "
@@ -1733,11 +1768,25 @@ def rule_L1(repo: Repo) -> RuleResult:
     t = [i for i in g.node.body if isinstance(i, ast.If)]
     ok4 = False
     if t:
-        tt = norm(t[0].test)
-        ok4 = "self._sort" in tt and "not self._index_is_sorted" in tt and " and " in tt \
-            and any(isinstance(r, ast.Return) and "argsort_index_numeric_only(self.result_index)" in norm(r.value) for r in t[0].body) \
-            and any(isinstance(r, ast.Return) and norm(r.value) == "slice(None)"
-                    for r in (t[0].orelse or g.node.body[g.node.body.index(t[0]) + 1:]))
+        def leaf_sort(srt: bool, already: bool):
+            def leaf(e: ast.AST):
+                tx = norm(e)
+                if tx == "self._sort":
+                    return srt
+                if tx == "self._index_is_sorted":
+                    return already
+                return None
+            return leaf
+
+        def arm4(srt: bool, already: bool):
+            v = eval_bool(t[0].test, leaf_sort(srt, already))
+            if v is None:
+                return None
+            return t[0].body if v else (t[0].orelse or g.node.body[g.node.body.index(t[0]) + 1:])
+        key_arm = arm4(True, False)
+        ok4 = key_arm is not None and any(isinstance(r, ast.Return) and "argsort_index_numeric_only(self.result_index)" in norm(r.value) for r in key_arm) \
+            and all(arm4(a, b) is not None and any(isinstance(r, ast.Return) and norm(r.value) == "slice(None)" for r in arm4(a, b))
+                    for a, b in ((True, True), (False, True), (False, False)))
     (res.ok if ok4 else res.bad)(g, g.node, "_labels_argsort: key only if sort requested and labels not already sorted",
                                  "" if ok4 else "the label permutation must be computed exactly when sorting was requested and the labels "
                                  "are not already in sorted order, and be the identity (slice(None)) otherwise")
